@@ -49,4 +49,32 @@ __attribute__((noinline)) unsigned w_sighash_schnorr(const unsigned char* in, un
     memcpy(out + 1, h.begin(), 32);
     return 1;
 }
+// the checker the tools use (TransactionSignatureChecker over a CTransaction, txdata initialised as Instance::setup_environment does):
+// in: tx bytes, nspent,(value,spk)*, nIn, amount, sigversion, sig, pubkey, scriptCode, annex_present, annex_hash, leaf, codesep ; out: result, error
+__attribute__((noinline)) unsigned w_checker(const unsigned char* in, unsigned char* out) {
+    Rd r{in};
+    CTransaction tx = tx_from(r.bytes());
+    uint32_t n = r.u32();
+    std::vector<CTxOut> spent;
+    for (uint32_t i = 0; i < n; i++) { int64_t v = (int64_t)r.u64(); std::vector<unsigned char> spk = r.bytes(); spent.emplace_back(v, CScript(spk.begin(), spk.end())); }
+    uint32_t nIn = r.u32(); int64_t amount = (int64_t)r.u64(); uint32_t sv = r.u32();
+    std::vector<unsigned char> sig = r.bytes(), pub = r.bytes(), sc = r.bytes();
+    uint32_t annex = r.u32(); std::vector<unsigned char> ah = r.bytes(), leaf = r.bytes(); uint32_t codesep = r.u32();
+    PrecomputedTransactionData txdata;
+    txdata.Init(tx, std::move(spent), true);
+    TransactionSignatureChecker checker(&tx, nIn, amount, txdata, MissingDataBehavior::FAIL);
+    ScriptError err = SCRIPT_ERR_OK;
+    bool ok;
+    if (sv == (uint32_t)SigVersion::BASE || sv == (uint32_t)SigVersion::WITNESS_V0) {
+        ok = checker.CheckECDSASignature(sig, pub, CScript(sc.begin(), sc.end()), (SigVersion)sv);
+    } else {
+        ScriptExecutionData ed;
+        ed.m_annex_init = true; ed.m_annex_present = annex != 0; if (annex) ed.m_annex_hash = uint256(ah);
+        ed.m_tapleaf_hash_init = true; ed.m_tapleaf_hash = uint256(leaf);
+        ed.m_codeseparator_pos_init = true; ed.m_codeseparator_pos = codesep;
+        ok = checker.CheckSchnorrSignature(sig, pub, (SigVersion)sv, ed, &err);
+    }
+    out[0] = ok ? 1 : 0; uint32_t e = (uint32_t)err; memcpy(out + 1, &e, 4);
+    return 1;
+}
 }
